@@ -157,6 +157,8 @@ pub enum Ev {
     },
     Cancel { by: Origin, id: u32 },
     Connect { node: usize, port: usize, target: usize },
+    /// A map / filter_map closure of an event source connection was evaluated for message `id`.
+    MapEval { id: u32 },
     /// A connection added by the driver through a clone of an output port that it kept.
     ConnectVia { node: usize, port: usize, conn: Conn },
     Fault { node: usize, kind: PanicKind },
@@ -625,6 +627,8 @@ pub struct BenchSpec {
     pub timeout_ms: u64,
     /// The driver keeps a clone of every output port (for `Cmd::ConnectVia`).
     pub hold_port_clones: bool,
+    /// Call `set_clock_tolerance` before `set_clock` (instead of after).
+    pub tolerance_first: bool,
 }
 
 impl BenchSpec {
@@ -640,6 +644,7 @@ impl BenchSpec {
             tolerance_ns: None,
             timeout_ms: 0,
             hold_port_clones: false,
+            tolerance_first: false,
         }
     }
     /// Fully qualified name of node i.
@@ -1227,28 +1232,34 @@ pub fn expected_replies(conns: &[Conn], v: i64) -> Vec<(usize, i64)> {
     out
 }
 
-fn connect_src(src: &mut EventSource<Msg>, conns: &[Conn], addrs: &[Address<Node>], fl: &[Flavour]) {
+fn connect_src(src: &mut EventSource<Msg>, conns: &[Conn], addrs: &[Address<Node>], fl: &[Flavour], w: &Arc<W>) {
     for c in conns {
         if let Conn::To { node, mode } = *c {
             match mode {
                 Mode::Plain => with_input!(fl[node], f => src.connect(f, &addrs[node])),
                 Mode::Map(_) => src.map_connect(
+                    {
+                    let w = w.clone();
                     move |m: &Msg| {
+                        w.log(Ev::MapEval { id: m.id });
                         let mut m = m.clone();
                         m.val = mode.apply(m.val).unwrap();
                         m
-                    },
+                    }},
                     Node::on_event,
                     &addrs[node],
                 ),
                 Mode::Filter(_) | Mode::FilterGe(_) => src.filter_map_connect(
+                    {
+                    let w = w.clone();
                     move |m: &Msg| {
+                        w.log(Ev::MapEval { id: m.id });
                         mode.apply(m.val).map(|v| {
                             let mut m = m.clone();
                             m.val = v;
                             m
                         })
-                    },
+                    }},
                     Node::on_event,
                     &addrs[node],
                 ),
@@ -1417,7 +1428,7 @@ pub fn build(spec: &Arc<BenchSpec>, w: &Arc<W>) -> Built {
     let mut srcs = vec![];
     for conns in &spec.srcs {
         let mut s = EventSource::new();
-        connect_src(&mut s, conns, &addrs, &fl);
+        connect_src(&mut s, conns, &addrs, &fl, w);
         srcs.push(s);
     }
     let mut qsrcs = vec![];
@@ -1480,6 +1491,11 @@ pub fn build(spec: &Arc<BenchSpec>, w: &Arc<W>) -> Built {
     drop(nodes);
 
     let clock_handle: Arc<Mutex<Option<(Scheduler, Arc<Vec<Address<Node>>>)>>> = Arc::new(Mutex::new(None));
+    if spec.tolerance_first {
+        if let Some(t) = spec.tolerance_ns {
+            sim_init = sim_init.set_clock_tolerance(Duration::from_nanos(t));
+        }
+    }
     sim_init = sim_init.set_clock(RecClock {
         w: w.clone(),
         answers: spec.clock.answers.clone(),
@@ -1487,8 +1503,10 @@ pub fn build(spec: &Arc<BenchSpec>, w: &Arc<W>) -> Built {
         handle: clock_handle.clone(),
         k: 0,
     });
-    if let Some(t) = spec.tolerance_ns {
-        sim_init = sim_init.set_clock_tolerance(Duration::from_nanos(t));
+    if !spec.tolerance_first {
+        if let Some(t) = spec.tolerance_ns {
+            sim_init = sim_init.set_clock_tolerance(Duration::from_nanos(t));
+        }
     }
     if spec.timeout_ms != 0 {
         sim_init = sim_init.set_timeout(Duration::from_millis(spec.timeout_ms));
